@@ -1,5 +1,6 @@
 import Pcore.Model.DescribeSig
 import Pcore.Proofs.Describe
+import Pcore.Proofs.DescribeCallable
 set_option linter.unusedSimpArgs false
 set_option linter.unusedVariables false
 /-!
@@ -112,17 +113,50 @@ theorem sigFinish_ok (ea : List (List Mismatch)) : ∀ k, sigFinish ea ≠ .faul
   | [d] => simp
   | d :: d' :: r' => simp
 
-/-- NO FAULT for a call that respects the contract -/
-theorem describeSignatures_total (sigs : List Sig) (args : Ty) (hs : ∀ sg ∈ sigs, SigOK sg) (ha : ArgsOK args) :
-    ∀ k, describeSignatures cfg sfh sigs args ≠ .fault k := by
-  intro k
-  obtain ⟨argErrs, he⟩ := sigAllArgs_ok cfg sfh args ha sigs hs 0
-  unfold describeSignatures
-  rw [he]
+theorem describeBlk_ok (eb : Blk) (ab : CT) (p : Path) : ∃ r, describeBlk cfg sfh eb ab p = .ok r := by
+  unfold describeBlk
   simp only []
   split
-  · simp
-  · exact sigFinish_ok _ k
+  · exact ⟨_, rfl⟩
+  · obtain ⟨r, hr⟩ := describeCallableType_ok cfg sfh ⟨eb.2.params, eb.2.ret, none⟩ (.callable ab) p
+    rw [hr]
+    cases r with
+    | nil => exact ⟨_, rfl⟩
+    | cons d ds => exact ⟨_, rfl⟩
+
+theorem sigBlock_ok (sg : Sig) (blk : Option CT) (path : Path) : ∃ r, sigBlock cfg sfh sg blk path = .ok r := by
+  unfold sigBlock
+  cases blk with
+  | none => simp only []; split <;> exact ⟨_, rfl⟩
+  | some ab =>
+    simp only []
+    split
+    · exact ⟨_, rfl⟩
+    · exact describeBlk_ok cfg sfh _ _ _
+
+theorem sigAllBlocks_ok (blk : Option CT) (sigs : List Sig) (ix : Nat) : ∃ r, sigAllBlocks cfg sfh blk sigs ix = .ok r := by
+  induction sigs generalizing ix with
+  | nil => exact ⟨_, rfl⟩
+  | cons sg rest ih =>
+    obtain ⟨be, hbe⟩ := sigBlock_ok cfg sfh sg blk (sigPath ix)
+    obtain ⟨more, hmore⟩ := ih (ix + 1)
+    simp only [sigAllBlocks, hbe, hmore]
+    exact ⟨_, rfl⟩
+
+/-- NO FAULT for a call that respects the contract, with or without a block -/
+theorem describeSignatures_total (sigs : List Sig) (args : Ty) (blk : Option CT) (hs : ∀ sg ∈ sigs, SigOK sg) (ha : ArgsOK args) :
+    ∀ k, describeSignatures cfg sfh sigs args blk ≠ .fault k := by
+  intro k
+  obtain ⟨argErrs, he⟩ := sigAllArgs_ok cfg sfh args ha sigs hs 0
+  obtain ⟨blockArrays, hb⟩ := sigAllBlocks_ok cfg sfh blk sigs 0
+  unfold describeSignatures
+  rw [he]
+  simp only [hb, Except.map]
+  split
+  · rename_i h; split at h <;> cases h
+  · split
+    · simp
+    · exact sigFinish_ok _ k
 
 end
 end Pcore.Desc
